@@ -53,6 +53,16 @@ func operatorPrecedence(tokenType token.Type) int {
 	}
 }
 
+// writeParenthesized prints e in parentheses exactly as a GroupedExpression is
+// printed, so that re-parsing and re-printing the output reproduces it.
+func writeParenthesized(cw *CodeWriter, e Expression) {
+	cw.WriteRune('(')
+	cw.IncreaseIndent()
+	e.WriteTo(cw)
+	cw.DecreaseIndent()
+	cw.WriteRune(')')
+}
+
 type CompileOptions struct {
 	GenerateSourceMap bool
 }
@@ -133,12 +143,7 @@ func (es *ExpressionStatement) WriteTo(cw *CodeWriter) {
 	// A statement that begins with `{` or `function` would be read back as a
 	// block or a function declaration, so such expressions are parenthesised
 	if startsWithBraceOrFunction(es.Expression) {
-		// written like a GroupedExpression, so that re-formatting is stable
-		cw.WriteRune('(')
-		cw.IncreaseIndent()
-		es.Expression.WriteTo(cw)
-		cw.DecreaseIndent()
-		cw.WriteRune(')')
+		writeParenthesized(cw, es.Expression)
 	} else {
 		es.Expression.WriteTo(cw)
 	}
@@ -446,11 +451,9 @@ func (be *BinaryExpression) WriteTo(cw *CodeWriter) {
 	// Left side needs parens if its precedence is lower than ours
 	leftNeedsParens := be.Left.Precedence() < myPrecedence
 	if leftNeedsParens {
-		cw.WriteRune('(')
-	}
-	be.Left.WriteTo(cw)
-	if leftNeedsParens {
-		cw.WriteRune(')')
+		writeParenthesized(cw, be.Left)
+	} else {
+		be.Left.WriteTo(cw)
 	}
 
 	cw.WriteSpace()
@@ -463,11 +466,9 @@ func (be *BinaryExpression) WriteTo(cw *CodeWriter) {
 	// For example: 1-2-3 should be ((1-2)-3) not (1-(2-3))
 	rightNeedsParens := be.Right.Precedence() <= myPrecedence
 	if rightNeedsParens {
-		cw.WriteRune('(')
-	}
-	be.Right.WriteTo(cw)
-	if rightNeedsParens {
-		cw.WriteRune(')')
+		writeParenthesized(cw, be.Right)
+	} else {
+		be.Right.WriteTo(cw)
 	}
 }
 
@@ -488,9 +489,7 @@ func (ue *UnaryExpression) WriteTo(cw *CodeWriter) {
 	cw.WriteString(ue.Operator)
 	// Right side needs parens if its precedence is lower than unary
 	if ue.Right.Precedence() < PrecedenceUnary {
-		cw.WriteRune('(')
-		ue.Right.WriteTo(cw)
-		cw.WriteRune(')')
+		writeParenthesized(cw, ue.Right)
 	} else {
 		ue.Right.WriteTo(cw)
 	}
@@ -510,9 +509,7 @@ func (pe *PostfixExpression) WriteTo(cw *CodeWriter) {
 	cw.WriteLeadingComments(pe.Token.LeadingComments)
 	// Left side needs parens if its precedence is lower than postfix
 	if pe.Left.Precedence() < PrecedencePostfix {
-		cw.WriteRune('(')
-		pe.Left.WriteTo(cw)
-		cw.WriteRune(')')
+		writeParenthesized(cw, pe.Left)
 	} else {
 		pe.Left.WriteTo(cw)
 	}
